@@ -2,7 +2,9 @@
    Cache level (sequential histories).  Map level: props/C11.v (Size = length of the
    abstract map after every call); interleaved: props/C08c.v. *)
 From CacheV Require Import Base SpecMap Client CacheModel CacheOfModel Ops SpecTTL.
-From CacheV.proofs Require Import C06_hist C08_cache.
+From CacheV Require Import TableModel.
+From CacheV.proofs Require Import C06_hist C08_cache C11_lists C11_table.
+From Coq Require Import NArith.
 
 (* After any history: Count is the number of keys physically present (live entries
    plus expired entries not yet cleaned); it never under-reports the live entries;
@@ -21,3 +23,27 @@ Theorem C08_count_laws :
         snd (fst (step_cache eqd zero m1 OCount)) = CNat 0).
 Proof. exact @count_laws. Qed.
 Print Assumptions C08_count_laws.
+
+(* Map / MapOf, sequentially: after any history -- whatever grows, shrinks and
+   clears it went through -- Size answers the number of pairs of the abstract
+   map, which is also the number of pairs a Range visits (for every hash, seed,
+   bucket size and policy). *)
+Theorem C08_map_size :
+  forall (K V A : Type) (eqd : forall a b : K, {a = b} + {a <> b})
+         (hash : K -> N -> N) (idx : N -> nat -> nat) (tag : N -> N) (nslots : nat) (seeds : nat -> N)
+         (variant : bool) (grow_needed shrink_policy : nat -> nat -> bool),
+    (forall h len, (0 < len)%nat -> (idx h len < len)%nat) ->
+    forall fuel (m : @tmap K V) (a : amap K V),
+      WFm hash idx tag nslots m -> meq eqd (abs nslots m) a ->
+      @table_step K V A eqd hash idx tag nslots seeds variant grow_needed shrink_policy fuel m MSize
+        = Some (m, RSize (length a))
+      /\ exists l, @table_step K V A eqd hash idx tag nslots seeds variant grow_needed shrink_policy fuel m MSnapshot
+                     = Some (m, RSnap l) /\ length l = length a.
+Proof.
+  intros K V A eqd hash idx tag nslots seeds variant g s Hidx fuel m a Hm Hq. split.
+  - pose proof (table_refines eqd hash idx tag nslots seeds variant g s Hidx fuel m a (@MSize K V A) m
+                  (RSize (t_size (cur nslots m))) Hm Hq eq_refl) as H.
+    cbn in H. destruct H as [_ [_ H]]. cbn. rewrite H. reflexivity.
+  - exists (abs nslots m). split; [reflexivity | apply (meq_length eqd); exact Hq].
+Qed.
+Print Assumptions C08_map_size.
